@@ -114,8 +114,7 @@ def handleRegion (circular : Bool) (L : Int) (rec : BioRecord) (j : Json) : R Js
                ("scope_wf", toJson (wfInput rd rec)),
                ("kf_prepeptide_cut", toJson (prepeptideCut L rd rec.features)),
                ("kf_equal_areas", toJson (equalAreas rd)),
-               ("kf_exons_span_file", toJson (exonsSpanFile circular L rd rec.features)),
-               ("kf_abutting_exons", toJson (chainLoses rd rec))]
+               ("kf_exons_span_file", toJson (exonsSpanFile circular L rd rec.features))]
 
 def handle (j : Json) : R Json := do
   let seq ← strF j "seq"
